@@ -36,7 +36,7 @@ func swapControls(ctl *Ctx) []*RuleResult {
 func init() {
 	register(&propDef{
 		id:          "C17",
-		explanation: "Decides the 'who may write what' sentence and one clause of 'ints.Sort orders like the standard library': PURE (the ten non-mutating sortints functions write nothing reachable from any argument, package-level or captured state), FRESH (the slice they return shares no memory with an argument, so mutating the result later cannot change an argument), RECEIVER-ONLY (Add, Remove and the Union method write only memory rooted at their receiver, never the variadic x or b), both from E-EFF write summaries; SWAP (ints.Sort and all its helpers only permute cells of their slice, so the output is a rearrangement of the input); MARKCOUNT (where Add marks cells of its scratch slice with a sentinel and counts them at more than one place, each place knows the cell is not marked yet, so the count equals the number of marks). It does not decide that results are the right sets or that Sort orders.",
+		explanation: "Decides the 'who may write what' sentence and one clause of 'ints.Sort orders like the standard library': PURE (the ten non-mutating sortints functions write nothing reachable from any argument, package-level or captured state), FRESH (the slice they return shares no memory with an argument, so mutating the result later cannot change an argument), RECEIVER-ONLY (Add, Remove and the Union method write only memory rooted at their receiver, never the variadic x or b), both from E-EFF write summaries; SWAP (ints.Sort and all its helpers only permute cells of their slice, so the output is a rearrangement of the input); MARKCOUNT (where Add marks cells of its scratch slice with a sentinel and counts them at more than one place, each place knows the cell is not marked yet, so the count equals the number of marks); SENTINEL (no value that is a constant until it is set to an element - a 'previous element' tracker initialised with -1, say - is compared for equality with an element: elements are arbitrary ints). It does not decide that results are the right sets or that Sort orders.",
 		notDecided:  []string{"that each function returns the mathematically correct set / boolean / size (e.g. Range with negative step)", "that ints.Sort puts the elements in ascending order"},
 		assumptions: []string{"append into spare capacity of an argument counts as a write to that argument (it is visible to other slices sharing the array)"},
 		run: func(c *Ctx, tier string) []*RuleResult {
@@ -57,7 +57,10 @@ func init() {
 			sc := &RuleResult{Rule: "SUBCMP", Doc: "no two elements are ordered by the sign of their difference (it overflows)", MinInst: 1}
 			ruleSubCmp(c, sc, "sortints")
 			ruleSubCmp(c, sc, "ints")
-			return []*RuleResult{pure, ro, fr, ruleSwap(c, "SWAP", swapDoc, c17Swap, 7), mc, sc}
+			sn := &RuleResult{Rule: "SENTINEL", Doc: "no constant stands in for 'no element yet' in an (in)equality test against elements: elements are arbitrary ints", MinInst: 0}
+			ruleSentinel(c, sn, "sortints")
+			ruleSentinel(c, sn, "ints")
+			return []*RuleResult{pure, ro, fr, ruleSwap(c, "SWAP", swapDoc, c17Swap, 7), mc, sc, sn}
 		},
 		controls: func(ctl *Ctx) []*RuleResult {
 			pure := &RuleResult{Rule: "PURE"}
@@ -74,7 +77,9 @@ func init() {
 			ruleMarkCount(ctl, mc, "markctl")
 			sc := &RuleResult{Rule: "SUBCMP"}
 			ruleSubCmp(ctl, sc, "markctl")
-			return append([]*RuleResult{pure, ro, fr, mc, sc}, swapControls(ctl)...)
+			sn := &RuleResult{Rule: "SENTINEL"}
+			ruleSentinel(ctl, sn, "markctl")
+			return append([]*RuleResult{pure, ro, fr, mc, sc, sn}, swapControls(ctl)...)
 		},
 	})
 	register(&propDef{
@@ -406,4 +411,84 @@ func ruleSubCmp(c *Ctx, r *RuleResult, pkgRel string) {
 	}
 	r.inst("%d functions of %s scanned for comparisons by subtraction", n, pkgRel)
 	r.oblig(true)
+}
+
+// ruleSentinel: the elements of a SortedInts are arbitrary ints, so no constant can stand for "no
+// previous element". A value that is either a constant or an element of an int slice - a phi whose
+// edges are constants and element loads, the `last := -1; for v in s { if v != last {...; last = v} }`
+// idiom - and is compared for (in)equality with an element is wrong for the input that contains
+// the constant. Index-valued sentinels (positions are never negative) are not elements and are not
+// judged.
+func ruleSentinel(c *Ctx, r *RuleResult, pkgRel string) {
+	isElem := func(v ssa.Value) bool {
+		ld, ok := v.(*ssa.UnOp)
+		if !ok || ld.Op != token.MUL {
+			return false
+		}
+		ia, ok := ld.X.(*ssa.IndexAddr)
+		if !ok {
+			return false
+		}
+		t := ia.X.Type().Underlying()
+		if p, isP := t.(*types.Pointer); isP {
+			t = p.Elem().Underlying()
+		}
+		switch tt := t.(type) {
+		case *types.Slice:
+			b, ok := tt.Elem().Underlying().(*types.Basic)
+			return ok && b.Kind() == types.Int
+		case *types.Array:
+			b, ok := tt.Elem().Underlying().(*types.Basic)
+			return ok && b.Kind() == types.Int
+		}
+		return false
+	}
+	for _, fn := range c.Funcs {
+		p := fnPkg(fn)
+		if p == nil || p.Pkg.Path() != c.Mod+"/"+pkgRel || fn.Synthetic != "" {
+			continue
+		}
+		for _, b := range fn.Blocks {
+			for _, in := range b.Instrs {
+				bo, ok := in.(*ssa.BinOp)
+				if !ok || (bo.Op != token.EQL && bo.Op != token.NEQ) {
+					continue
+				}
+				for _, pair := range [][2]ssa.Value{{bo.X, bo.Y}, {bo.Y, bo.X}} {
+					phi, ok := pair[0].(*ssa.Phi)
+					if !ok || !isElem(pair[1]) {
+						continue
+					}
+					var consts []int64
+					elems, other := 0, 0
+					seen := map[*ssa.Phi]bool{}
+					var walk func(p *ssa.Phi)
+					walk = func(p *ssa.Phi) {
+						if seen[p] {
+							return
+						}
+						seen[p] = true
+						for _, e := range p.Edges {
+							if k, isC := constInt(e); isC {
+								consts = append(consts, k)
+							} else if isElem(e) {
+								elems++
+							} else if q, isPhi := e.(*ssa.Phi); isPhi {
+								walk(q)
+							} else {
+								other++
+							}
+						}
+					}
+					walk(phi)
+					r.inst("%s: %s compared with an element", c.short(fn), valName(phi))
+					bad := len(consts) > 0 && elems > 0 && other == 0
+					r.oblig(!bad)
+					if bad {
+						r.find(c.short(fn)+":sentinel "+fmt.Sprint(consts[0])+" compared with elements", c.instrPos(bo), "%s compares an element with %s, which is the constant %d until it has been set to an element: elements are arbitrary ints, so an input that contains %d is treated as if it had already been seen (or not seen)", c.short(fn), valName(phi), consts[0], consts[0])
+					}
+				}
+			}
+		}
+	}
 }
